@@ -70,7 +70,35 @@ Definition check_rp (bs : list (Z * Z)) (p : repoint) : list nat :=
            | _, _, None => true
            | _, _, _ => false end).
 
+(* one step of a history on one object, with the recorded outcome of the implementation *)
+Inductive hstep :=
+| HSet (d : list Z) (accepted : bool)
+| HFromMat (A : list (list Z))
+| HAsm (out : list ((Z * Z) * Z))
+| HDot (x : list Z) (out : option (list Z))
+| HNz (lt : bool) (out : option (list (Z * Z)))
+| HNzT (out : option (list (Z * Z)))
+| HReo (axes : list nat) (out : list ((Z * Z) * Z)).
+
+Fixpoint check_hist (bs : list (Z * Z)) (bidx : list pat) (data : list Z) (steps : list hstep) : list nat :=
+  match steps with
+  | [] => []
+  | st :: steps' =>
+      match st with
+      | HSet d acc => flag 60 (Bool.eqb (set_ok bidx d) acc)
+                      ++ check_hist bs bidx (hist_step bs bidx data (OpSet d)) steps'
+      | HFromMat A => check_hist bs bidx (hist_step bs bidx data (OpFromMatrix A)) steps'
+      | HAsm out => flag 61 (tl_eqb (asmatrix bs bidx data) out) ++ check_hist bs bidx data steps'
+      | HDot x out => flag 62 (opt_eqb zl_eqb (matvec bs bidx data x) out) ++ check_hist bs bidx data steps'
+      | HNz lt out => flag 63 (opt_eqb pl_eqb (nonzero bs bidx lt) out) ++ check_hist bs bidx data steps'
+      | HNzT out => flag 64 (opt_eqb pl_eqb (nonzero (transpose_bs bs) (transpose_bidx bidx) false) out)
+                    ++ check_hist bs bidx data steps'
+      | HReo axes out => flag 65 (tl_eqb (reorder_asmatrix bs bidx data axes) out) ++ check_hist bs bidx data steps'
+      end
+  end.
+
 Inductive case :=
+| CHist (bs : list (Z * Z)) (bidx : list pat) (data : list Z) (steps : list hstep)
 | CML (c : mlcase)
 | CRe (bs : list (Z * Z)) (pts : list repoint)
 | CKvs (kv1 : list Z) (p1 : nat) (kv2 : list Z) (p2 : nat) (out : pat)
@@ -87,6 +115,7 @@ Fixpoint dedup (l : list nat) : list nat :=
 
 Definition check (c : case) : list nat :=
   match c with
+  | CHist bs bidx data steps => dedup (check_hist bs bidx data steps)
   | CML c => check_ml c
   | CRe bs pts => dedup (flat_map (check_rp bs) pts)
   | CKvs kv1 p1 kv2 p2 out => flag 31 (pl_eqb (compute_sparsity_ij (supports kv1 p1) (supports kv2 p2)) out)
